@@ -8,6 +8,7 @@ import Pog.Drv.Imports
 import Pog.Drv.Plan
 import Pog.Drv.Surface
 import Pog.Drv.Sinks
+import Pog.Drv.GenCode
 /-
   Line protocol: one JSON request per line on stdin, one JSON reply per line on stdout.
     request  {"f": <function>, "a": [<args>], "u": {<codepoint>: {"w":bool,"d":bool,"l":str,"U":str,"iu":bool}}}
@@ -26,7 +27,8 @@ def dispatchers : List Dispatch := [
   dispatchImports,
   dispatchPlan,
   dispatchSurface,
-  dispatchSinks
+  dispatchSinks,
+  dispatchGenCode
 ]
 
 def dispatch (f : String) (a : Array Json) (u : UInfo) : Except String Json :=
